@@ -103,6 +103,13 @@ var progSpecs = []progSpec{
 	{"component_definition", "Meta", "GetDependents", "meta_GetDependents"},
 	{"component_definition", "Meta", "SetProperties", "meta_SetProperties"},
 	{"component_definition", "Meta", "GetComponentProperties", "meta_GetComponentProperties"},
+	{"component_definition", "TagArg", "Parse", "arg_Parse"},
+	{"component_definition", "TagArg", "Set", "arg_Set"},
+	{"component_definition", "TagArg", "Add", "arg_Add"},
+	{"component_definition", "", "formatArgType", "arg_formatArgType"},
+	{"component_definition", "TagArg", "Find", "arg_Find"},
+	{"component_definition", "TagArg", "Has", "arg_Has"},
+	{"component_definition", "", "isIntersect", "arg_isIntersect"},
 }
 
 // conversions whose single argument is passed through unchanged
@@ -249,8 +256,8 @@ func (t *tr) expr(e ast.Expr) string {
 				return fmt.Sprintf("(.glob %s)", lq(p))
 			}
 		}
-		if p, root, ok := dotted(x.X); ok && root == t.recv && t.recv != "" && strings.Contains(p, ".") {
-			// an element of a FIELD of the receiver (a map or slice kept in the object): the primitive ".getidx"
+		if _, root, ok := dotted(x.X); ok && root == t.recv && t.recv != "" {
+			// an element of the receiver or of one of its fields (a map or slice kept in the object): the primitive ".getidx"
 			return fmt.Sprintf("(.call \".getidx\" [%s, %s])", t.expr(x.X), t.expr(x.Index))
 		}
 		return fmt.Sprintf("(.idx %s %s)", t.expr(x.X), t.expr(x.Index))
@@ -279,6 +286,18 @@ func (t *tr) expr(e ast.Expr) string {
 		return t.unsupported("composite literal", x)
 	case *ast.CallExpr:
 		return t.call(x)
+	case *ast.SliceExpr:
+		if x.Slice3 {
+			return t.unsupported("three-index slice", x)
+		}
+		lo, hi := ".nil", ".nil"
+		if x.Low != nil {
+			lo = t.expr(x.Low)
+		}
+		if x.High != nil {
+			hi = t.expr(x.High)
+		}
+		return fmt.Sprintf("(.call \"slice\" [%s, %s, %s])", t.expr(x.X), lo, hi) // x[lo:hi]; a missing bound is nil
 	}
 	return t.unsupported(fmt.Sprintf("%T", e), e)
 }
@@ -307,6 +326,12 @@ func (t *tr) call(c *ast.CallExpr) string {
 			return t.unsupported("function literal outside a call", c)
 		}
 		return t.expr(c.Args[0])
+	}
+	// a conversion T(x) to a type declared in this file, or to a basic type: the value passes through
+	if id, ok := c.Fun.(*ast.Ident); ok && len(c.Args) == 1 && c.Ellipsis == token.NoPos {
+		if (id.Obj != nil && id.Obj.Kind == ast.Typ) || (id.Obj == nil && id.Name == "ArgType") {
+			return t.expr(c.Args[0])
+		}
 	}
 	// builtins
 	if id, ok := c.Fun.(*ast.Ident); ok && id.Obj == nil {
@@ -535,6 +560,9 @@ func (t *tr) stmt(s ast.Stmt) []string {
 			if len(x.Rhs) == 1 {
 				if lhs, ok := identNames(x.Lhs); ok {
 					rhs := t.expr(x.Rhs[0])
+					if ix, isIx := x.Rhs[0].(*ast.IndexExpr); isIx && len(lhs) == 2 {
+						rhs = fmt.Sprintf("(.call \".getidx2\" [%s, %s])", t.expr(ix.X), t.expr(ix.Index)) // v, ok := m[k]
+					}
 					if ta, isTA := x.Rhs[0].(*ast.TypeAssertExpr); isTA && len(lhs) == 2 && ta.Type != nil {
 						rhs = fmt.Sprintf("(.assert2 %s %s)", t.expr(ta.X), lq(exprName(ta.Type))) // comma-ok form
 					}
